@@ -23,6 +23,9 @@ def monitor(case, line):
             return ("%s handle %s stayed active for the whole %s phase (active at its first callback, not started, "
                     "stopped or closed during it) but was not called" % (("idle", "prepare", "check")[int(kk) - 1], hh,
                                                                           ("idle", "prepare", "check")[int(kk) - 1]))
+        if tok == "!drainhang":
+            return ("after uv_close() on every handle uv_run(UV_RUN_DEFAULT) did not return within 4000 poll phases: "
+                    "the loop stays alive (or a closed handle keeps firing)")
         if tok == "!spin":
             return "the loop polled more than 4000 times in one case without reaching the callback cap (spinning)"
         if tok[0] == "x":
